@@ -447,6 +447,12 @@ func (sc *Script) render(target *Obligation) string {
 func (sc *Script) renderIncremental() string {
 	var b strings.Builder
 	b.WriteString(prelude)
+	hasWeak := map[string]bool{}
+	for _, ob := range sc.obs {
+		if ob.WeakOf != "" {
+			hasWeak[ob.WeakOf] = true
+		}
+	}
 	for _, l := range sc.lines {
 		if l.ob == nil {
 			b.WriteString(l.text)
@@ -462,15 +468,21 @@ func (sc *Script) renderIncremental() string {
 			continue
 		}
 		b.WriteString("(push 1)\n")
+		short := ob.Cover || hasWeak[ob.Name]
 		if ob.Cover {
 			// covers are expected to be sat; with quantifiers the answer is usually unknown: do not wait for it
 			b.WriteString("(set-option :timeout 1000)\n")
 			b.WriteString("(assert " + and(ob.Guard, ob.Cond).S + ")\n")
 		} else {
+			if short {
+				// an obligation with a recorded known-finding class: its class-restricted variant (next) decides;
+				// the unrestricted one is expected to fail, do not wait the full timeout for it
+				b.WriteString("(set-option :timeout 2000)\n")
+			}
 			b.WriteString("(assert " + and(ob.Guard, not(ob.Cond)).S + ")\n")
 		}
 		b.WriteString("(check-sat)\n(pop 1)\n")
-		if ob.Cover {
+		if short {
 			b.WriteString(fmt.Sprintf("(set-option :timeout %d)\n", sc.timeoutMs))
 		}
 		if !ob.Cover && !ob.NoAssume {
